@@ -43,6 +43,8 @@ class Run:
         self.rule = ""
         self.extra = {}
         self.workers = int(os.environ.get("VERIF_WORKERS", "16"))
+        import atexit
+        atexit.register(lambda: shutil.rmtree(self.scratch, ignore_errors=True))
 
     # ------------------------------------------------------------ TLC stages
     def mc(self, module, name, constants=None, invariants=(), properties=(), constraint=None, view=None,
@@ -94,7 +96,7 @@ class Run:
             raise tlc.MachineryError("harness failure: " + bad[0]["harness_exc"] + "\n" + bad[0].get("harness_tb", ""))
         return traces
 
-    def validate(self, module, traces, strip=()):
+    def validate(self, module, traces, strip=(), count=True):
         """Validate recorded traces with TLC; returns {id: [rejections]}."""
         t = time.time()
         slim = []
@@ -102,7 +104,8 @@ class Run:
             s = {k: v for k, v in tr.items() if not k.startswith("_") and k not in strip}
             slim.append(s)
         rej, n = tlc.validate(module, slim, self.scratch, shards=self.workers)
-        self.traces_validated += n
+        if count:
+            self.traces_validated += n
         self.extra["validate_s"] = round(self.extra.get("validate_s", 0) + time.time() - t, 1)
         by = {}
         for r in rej:
